@@ -53,7 +53,10 @@ def _ast_to_ir(node, klong, var_refs):
             if node not in var_refs:
                 var_refs[node] = f'_v{len(var_refs)}'
             return ('var', var_refs[node])
-        if isinstance(val, klong._backend.np.ndarray):
+        # Numeric arrays only: a nested list is an object array, on which the Python
+        # operators do not follow Klong's element-wise recursion (e.g. a comparison
+        # collapses a one-element sublist to its truth value).
+        if isinstance(val, klong._backend.np.ndarray) and val.dtype != object:
             if node not in var_refs:
                 var_refs[node] = f'_v{len(var_refs)}'
             return ('var', var_refs[node])
